@@ -34,6 +34,25 @@ CLAIMS = {
              "builds are additionally compared with each other in lock-step.",
         technique="Lean 4 simulation proof between two interpreters + two real builds in lock-step",
         design="7 C02"),
+    'C04': dict(
+        text="Proof against an abstract transmit environment that is itself proved to cover the chip model; the assumption on the schedule "
+             "(no underrun) and the behaviour after the callback are left to the scripts. The environment txE (Sx/Lemmas/TxFifo.lean) is a "
+             "64-byte FIFO from which the modulator may take any number of bytes before EVERY SPI transfer (hence also between the transfers "
+             "of a running handler), flag bits consistent with the FIFO level at the moment of the read (threshold 31), any transfer may fail, "
+             "the application may do anything in the callback. Theorems, for every buffer size, frame, handle and FIFO content: tx_queue / "
+             "tx_queue_addr (queuing writes exactly the first min(|frame|,64) bytes of length byte + address byte + payload into the empty "
+             "FIFO), tx_invocation (one handler invocation hands over zero or more NEXT bytes of the frame, never more than the free space, "
+             "touches no other register, and completes - state reset, callback exactly once - only after the chip reported PacketSent, or "
+             "FifoEmpty with everything handed over shifted out), C04_session / C04_in_order (by induction over any number of invocations up "
+             "to the callback: the bytes handed over are at every point exactly frame.take(sent), nothing is lost or duplicated in the FIFO, no "
+             "overflow, no flush). tx_covers + C04_step_on_chip: the interpreter over the chip model, cached or uncached build, with any "
+             "schedule of modulator events before any transfer and any failing transfers, is an instance of txE (flag facts decided in the "
+             "kernel over all 256 register values), so the statements hold for executions on the simulated chip, whose overflow counter stays "
+             "unchanged. Not proved: that the whole frame has been handed over when the chip reports completion (this is the no-underrun "
+             "assumption on the schedule), and exactly-once delivery when the application queues the next packet or leaves TX inside the "
+             "callback - decided by the scripts (stay/leave/chain behaviours, in-handler modulator events, faults) on the real driver.",
+        technique="Lean 4 weakest-precondition calculus over an abstract environment (all schedules, all answers) + refinement of the chip-model interpreter to that environment + TX schedules on the real driver",
+        design="7 C04"),
     'C05': dict(
         text="Proof for the explicit-header path, correspondence for the rest. Theorems Sx.C05_rx_done / C05_crc_error (plain execution) and "
              "C05_cached (cached build after any admissible history): whenever RegIrqFlags holds RxDone without CadDone and PayloadCrcError "
